@@ -255,3 +255,50 @@ func Verif_C13_cancel_stops_the_process() {
 		verifapi.Assert("payload-that-ignores-the-interrupt-is-killed", killed)
 	}
 }
+
+// Verif_C13_cancel_after_an_early_cancel: a unit is cancelled once before its runner has recorded a
+// process (nothing to stop yet - e.g. a second client cancels while the submitter is still sending
+// input), the unit starts all the same, and it is cancelled (or released) again: this time there IS a
+// process, and it is interrupted and the unit recorded as cancelled. Process handling = recording model.
+func Verif_C13_cancel_after_an_early_cancel() {
+	dir := verifapi.TempDir()
+	wk := verifWorkceptor(dir)
+	verifapi.Assert("register", wk.w.RegisterWorker("cmd", verifCmdCfg().NewWorker, false) == nil)
+	verifapi.FixRandom("unit0081")
+	unit, err := wk.w.AllocateUnit("cmd", map[string]string{})
+	verifapi.Assert("allocated", err == nil)
+	var signalled []int
+	verifapi.Redirect("os.FindProcess", func(pid int) (*os.Process, error) { return &os.Process{Pid: pid}, nil })
+	verifapi.Redirect("(*os.Process).Signal", func(p *os.Process, sig os.Signal) error {
+		signalled = append(signalled, p.Pid)
+		return nil
+	})
+	verifapi.Redirect("(*os.Process).Wait", func(p *os.Process) (*os.ProcessState, error) { return nil, nil })
+	verifapi.Redirect("(*os.Process).Release", func(p *os.Process) error { return nil })
+	early := verifapi.Bool()
+	if early {
+		verifapi.Assert("early-cancel-reports-success", unit.Cancel() == nil)
+		verifapi.Assert("nothing-to-signal-yet", len(signalled) == 0)
+	}
+	// the runner starts and records its process
+	unit.UpdateFullStatus(func(st *StatusFileData) {
+		st.State, st.Detail = WorkStateRunning, "Running: PID 77"
+		if ced, ok := st.ExtraData.(*CommandExtraData); ok {
+			ced.Pid = 77
+		}
+	})
+	second := verifapi.Choose(2) // cancel, or release (which implies cancel)
+	if second == 0 {
+		verifapi.Assert("cancel-reports-success", unit.Cancel() == nil)
+	} else {
+		verifapi.Assert("release-reports-success", unit.Release(false) == nil)
+	}
+	verifapi.Quiesce()
+	verifapi.Cover("cancelled-while-running")
+	verifapi.Assert("the-unit-s-process-is-interrupted", len(signalled) == 1 && signalled[0] == 77)
+	if second == 0 {
+		verifapi.Assert("unit-recorded-as-cancelled", unit.Status().State == WorkStateCanceled)
+	}
+	wk.cancel()
+	verifapi.Quiesce()
+}
